@@ -134,6 +134,29 @@ func formatLiterals(format string) []string {
 	return out
 }
 
+// pathLiterals: literal pieces of the strings fn assembles (Sprintf formats and constant
+// operands of string concatenations).
+func pathLiterals(fn *ssa.Function) []string {
+	var out []string
+	for _, f := range constArgs(fn, "fmt.Sprintf", 0) {
+		out = append(out, formatLiterals(f)...)
+	}
+	for _, f := range withClosures(fn) {
+		for _, ins := range allInstrs(f) {
+			bo, ok := ins.(*ssa.BinOp)
+			if !ok || bo.Op != token.ADD {
+				continue
+			}
+			for _, v := range []ssa.Value{bo.X, bo.Y} {
+				if k, ok := v.(*ssa.Const); ok && k.Value != nil && k.Value.Kind() == constant.String && constant.StringVal(k.Value) != "" {
+					out = append(out, constant.StringVal(k.Value))
+				}
+			}
+		}
+	}
+	return out
+}
+
 func ruleEncodings(which string) ruleFn {
 	return func(r *Run) {
 		const rule = "R13f"
@@ -162,18 +185,19 @@ func ruleEncodings(which string) ruleFn {
 					}
 				}
 			}
-			for _, f := range constArgs(add, "fmt.Sprintf", 0) {
-				lits := formatLiterals(f)
-				r.Check(len(lits) == 1 && lits[0] == kw+sep, rule, fnName(add), "format "+f, r.P.pos(add.Pos()),
-					"top-level paths are written as `"+kw+sep+"<name>`, which is what injectFile parses", "the path prefix written for an extracted upload (`"+f+"`) is not `"+kw+sep+"…` as parsed by requests.injectFile: the owning service cannot map the part back to the variable")
+			// the literal pieces a path is assembled from: between the verbs of a Sprintf
+			// format, or the constant operands of string concatenations
+			al := pathLiterals(add)
+			for _, l := range al {
+				r.Check(l == kw+sep, rule, fnName(add), "path literal "+l, r.P.pos(add.Pos()),
+					"top-level paths are written as `"+kw+sep+"<name>`, which is what injectFile parses", "the path prefix written for an extracted upload (`"+l+"`) is not `"+kw+sep+"…` as parsed by requests.injectFile: the owning service cannot map the part back to the variable")
 			}
-			fs := constArgs(ext, "fmt.Sprintf", 0)
-			for _, f := range fs {
-				lits := formatLiterals(f)
-				r.Check(len(lits) == 1 && lits[0] == sep, rule, fnName(ext), "format "+f, r.P.pos(ext.Pos()),
-					"nested path components are joined with `"+sep+"`", "nested upload paths are written with `"+f+"` but parsed by splitting on `"+sep+"`")
+			el := pathLiterals(ext)
+			for _, l := range el {
+				r.Check(l == sep, rule, fnName(ext), "path literal "+l, r.P.pos(ext.Pos()),
+					"nested path components are joined with `"+sep+"`", "nested upload paths are written with `"+l+"` but parsed by splitting on `"+sep+"`")
 			}
-			r.AtLeast(rule, "upload path formats", len(fs)+len(constArgs(add, "fmt.Sprintf", 0)), 3)
+			r.AtLeast(rule, "upload path literals", len(al)+len(el), 3)
 			// list indexes are parsed as integers
 			hasAtoi := false
 			for _, ins := range allInstrs(inj) {
